@@ -424,7 +424,7 @@ impl Scenario for Quiesce {
                             }
                         }
                     }
-                    ChaosOp::Stall { node, ms } => w.stalled_until[World::idx(*node)] = w.now + ms * MS,
+                    ChaosOp::Stall { node, ms } => { let i = World::idx(*node); w.stalled_until[i] = w.stalled_until[i].max(w.now + ms * MS); }
                     ChaosOp::Gossip { node } => {
                         w.call(*node, Input::Gossip);
                     }
